@@ -40,7 +40,7 @@ fn main() {
 
     g1!(
         f_map, f_filter, f_flat_map, f_filter_map, f_inspect, f_enumerate, f_scan, f_limit, f_unique,
-        f_chain_src, f_cross_singleton, f_bounded_count_cross, f_bounded_fold_chain, f_bounded_reduce_chain, f_flat_unordered,
+        f_chain_src, f_cross_singleton, f_bounded_count_cross, f_filter_not_in, f_bounded_fold_chain, f_bounded_reduce_chain, f_flat_unordered,
         f_tee_merge, f_partition_merge, f_fold, f_fold_comm, f_reduce, f_reduce_comm, f_count, f_max,
         f_min, f_first, f_last, f_collect_vec, f_sg_map, f_sg_filter, f_opt_unwrap_or, f_opt_map_or,
         f_threshold, f_join_half, f_anti_join, f_k_fold, f_k_reduce, f_k_entries_map, f_k_map_with_key,
@@ -55,6 +55,21 @@ fn main() {
         m_count, m_fold_monotone, m_bounded_count, m_k_value_counts, m_k_fold_monotone, m_k_fold_keys,
         m_k_reduce_keys, m_k_first_map, m_k_first_entries, m_k_early_stop_map, m_ks_map_keys,
     );
+    // one input, two outputs: `out` (judged) and `echo` (the unrelated unbounded input)
+    macro_rules! g1e {
+        ($($name:ident),* $(,)?) => {$(
+            emit(stringify!($name), std::panic::catch_unwind(|| {
+                let mut flow = hydro_lang::compile::builder::FlowBuilder::new();
+                let process = flow.process::<()>();
+                let (out, echo) = hv_det_flows::$name(process.embedded_input("a"));
+                out.embedded_output("out");
+                echo.embedded_output("echo");
+                flow.with_process(&process, stringify!($name)).generate_embedded("hv_det_flows")
+            }));
+        )*};
+    }
+    g1!(e_ks_join_unb, e_bl_ur_join, e_bl_ur_cross, e_ul_br_cross);
+    g1e!(e_bb_nested, e_bb_cross, e_bb_join, e_bb_repeat, e_bb_ks_join);
     g2!(f_merge, f_cross_product, f_join, f_join_count, f_kjoin, t_repeat_with_keys);
 
     assert!(failed.is_empty(), "code generation panicked for flows: {failed:?}");
